@@ -99,13 +99,35 @@ func init() {
 		}
 		panic("no v field in " + c.Typ.String())
 	}
-	intrinsics["(*sync/atomic.Uint64).Add"] = func(e *Exec, a []Value) Value {
-		c := fieldV(a[0])
-		nv := e.binop(token.ADD, c.V, a[1], types.Typ[types.Uint64])
-		c.V = nv
-		return nv
+	for _, ty := range []struct {
+		n string
+		t types.Type
+	}{{"Int32", types.Typ[types.Int32]}, {"Int64", types.Typ[types.Int64]}, {"Uint32", types.Typ[types.Uint32]}, {"Uint64", types.Typ[types.Uint64]}} {
+		ty := ty
+		pre := "(*sync/atomic." + ty.n + ")."
+		intrinsics[pre+"Add"] = func(e *Exec, a []Value) Value {
+			c := fieldV(a[0])
+			nv := e.binop(token.ADD, c.V, a[1], ty.t)
+			c.V = nv
+			return nv
+		}
+		intrinsics[pre+"Load"] = func(e *Exec, a []Value) Value { return fieldV(a[0]).V }
+		intrinsics[pre+"Store"] = func(e *Exec, a []Value) Value { fieldV(a[0]).V = a[1]; return nil }
+		intrinsics[pre+"Swap"] = func(e *Exec, a []Value) Value {
+			c := fieldV(a[0])
+			old := c.V
+			c.V = a[1]
+			return old
+		}
+		intrinsics[pre+"CompareAndSwap"] = func(e *Exec, a []Value) Value {
+			c := fieldV(a[0])
+			if e.decide(e.deepEq(c.V, a[1])) {
+				c.V = a[2]
+				return VBool{BoolC(true)}
+			}
+			return VBool{BoolC(false)}
+		}
 	}
-	intrinsics["(*sync/atomic.Uint64).Load"] = func(e *Exec, a []Value) Value { return fieldV(a[0]).V }
 	intrinsics["(*sync/atomic.Bool).Store"] = func(e *Exec, a []Value) Value {
 		c := fieldV(a[0])
 		b := a[1].(VBool).T
@@ -116,6 +138,18 @@ func init() {
 			c.V = VInt{Ite(b, BVu(w, 1), BVu(w, 0))}
 		}
 		return nil
+	}
+	intrinsics["(*sync/atomic.Bool).Swap"] = func(e *Exec, a []Value) Value {
+		c := fieldV(a[0])
+		old := c.V.(VInt).T
+		b := a[1].(VBool).T
+		w, _ := typeWS(c.Typ)
+		if intMode {
+			c.V = VInt{Ite(b, IntC(big.NewInt(1)), IntC(bigZero()))}
+		} else {
+			c.V = VInt{Ite(b, BVu(w, 1), BVu(w, 0))}
+		}
+		return VBool{Not(Eq(old, idxC(old, 0)))}
 	}
 	intrinsics["(*sync/atomic.Bool).Load"] = func(e *Exec, a []Value) Value {
 		v := fieldV(a[0]).V.(VInt).T
